@@ -88,6 +88,18 @@ def _run(mod, a, t0):
                 log = log_tie
         else:
             tie_cov["translated_tie"] = {"functions": status, "lemmas_check": "unavailable (source shape not in the translator's subset; not a verdict)"}
+    if hasattr(mod, "translated_tie"):
+        # a property's own translator: (status per function, tie target)
+        status, target = mod.translated_tie()
+        if all(v == "translated" for v in status.values()):
+            ok_tie, log_tie = vlib.make([target])
+            tie_cov["translated_tie"] = {"functions": status, "lemmas_check": ok_tie, "lemmas": target}
+            if not ok_tie:
+                proofs_ok = False
+                log = log_tie
+        else:
+            tie_cov["translated_tie"] = {"functions": status, "lemmas": target,
+                                         "lemmas_check": "unavailable (source shape not in the translator's subset; not a verdict)"}
 
     if a.replay:
         data = json.load(open(a.replay))
